@@ -1,7 +1,7 @@
 (* C01 — merge: a call accepted by the merged signature is accepted by every input.
    Only statements, each closed by `exact <lemma>`; proofs live in Proofs/. *)
 From Sigtools.Model Require Import Base Bind Roles Algebra Universe.
-From Sigtools.Proofs Require Import SmallModel Basics SweepDefs Bounded MergeSound MergeSoundMixed.
+From Sigtools.Proofs Require Import SmallModel Basics SweepDefs Bounded MergeSound MergeSoundMixed MergeSoundN.
 From Coq Require Import Lia.
 
 (* Small-model theorem for call shapes: acceptance of ANY call by ANY signature is
@@ -102,4 +102,16 @@ Print Assumptions C01_merge2_mixed_needs_role_consistency.
 Theorem C01_merge2_mixed_needs_noncolliding : let a := {| params := [{| pname := 1; pkind := PK; pdef := None; pann := None; puann := UEmpty |}; {| pname := 10; pkind := VK; pdef := None; pann := None; puann := UEmpty |}]; ret := None; uret := UEmpty; srcs := []; deps := [] |} in let b := {| params := [{| pname := 2; pkind := PK; pdef := None; pann := None; puann := UEmpty |}; {| pname := 10; pkind := VK; pdef := None; pann := None; puann := UEmpty |}]; ret := None; uret := UEmpty; srcs := []; deps := [] |} in let c := {| npos := 1; kws := [2] |} in valid_sig (params a) = true /\ valid_sig (params b) = true /\ role_consistent [params a; params b] = true /\ (exists r : sigT, merge [a; b] = Ok r /\ noncolliding c (params r) [params a; params b] = false /\ accepts (params r) c = true /\ accepts (params b) c = false).
 Proof. exact @MergeSoundMixed.merge2_mixed_needs_noncolliding. Qed.
 Print Assumptions C01_merge2_mixed_needs_noncolliding.
+
+
+(* ---- every non-colliding call through the n-ary fold, any number of valid role-consistent inputs
+   (Proofs/MergeSoundN.v; role consistency is not preserved by a merge step, the fold carries a weaker
+   relation) ---- *)
+Theorem C01_merge_sound_mixed_n : forall (ss : list sigT) (r : sigT) (c : call), RcValidN.all_valid ss -> role_consistent (map params ss) = true -> merge ss = Ok r -> noncolliding c (params r) (map params ss) = true -> accepts (params r) c = true -> Forall (fun s : sigT => accepts (params s) c = true) ss.
+Proof. exact @MergeSoundN.merge_sound_mixed_n. Qed.
+Print Assumptions C01_merge_sound_mixed_n.
+
+Theorem C01_merge_nested_sound_mixed_n : forall (ss : list sigT) (r : sigT) (c : call), RcValidN.all_valid ss -> role_consistent (map params ss) = true -> merge_nested ss = Ok r -> noncolliding c (params r) (map params ss) = true -> accepts (params r) c = true -> Forall (fun s : sigT => accepts (params s) c = true) ss.
+Proof. exact @MergeSoundN.merge_nested_sound_mixed_n. Qed.
+Print Assumptions C01_merge_nested_sound_mixed_n.
 
